@@ -398,10 +398,20 @@ def run(v, tier, st, pr, pid):
         outs = pool_map(_c01_job, docs)
         nlinks = 0
         for (text, exp, allow), o in zip(docs, outs):
+            if o[0] == 'raise' and o[1].endswith(('TableNotFoundError', 'ColumnNotFoundError')):
+                # every address in a generated document names a declared table / column: failing to resolve one is
+                # the addressing clause of C05 (schema.name, bare name and alias reach the same table)
+                fails.append({'cause': 'oracle', 'clause': 'an address of a well-formed document does not resolve (%s)' % o[1],
+                              'input': {'kind': 'document', 'text_hex': hexs(text), 'text': text, 'allow_properties': allow}})
             if o[0] in ('ok', 'diff'):
                 nlinks += 1
                 for f in o[2][:2]:
                     fails.append({'cause': 'oracle', 'clause': f, 'input': {'kind': 'document', 'text_hex': hexs(text), 'text': text, 'allow_properties': allow}})
+                # what each address (schema.name, bare name, alias) resolved to is part of C05: the declared endpoints,
+                # enum-typed column types and group items are compared with what the document says
+                if o[0] == 'diff' and isinstance(o[1], str) and re.match(r'^\.(refs|groups)\b|^\.tables\[\d+\]\.columns\[\d+\]\.type', o[1]):
+                    fails.append({'cause': 'oracle', 'clause': 'an address resolved to something else than the document declares: ' + o[1][:160],
+                                  'input': {'kind': 'document', 'text_hex': hexs(text), 'text': text, 'allow_properties': allow}})
         stats['databases_link_checked'] = nlinks
     elif pid == 'C06':
         cases = []
@@ -413,21 +423,26 @@ def run(v, tier, st, pr, pid):
                     text, _ = docgen.render_doc(B, stl, False)
                 except Exception:   # noqa
                     continue
-                cases.append((kind, exc, text))
-                add_job(text, False, kind, renders=False)
-        # a table without columns
+                allow = r.random() < 0.35        # the rules do not depend on the option
+                cases.append((kind, exc, text, allow))
+                add_job(text, allow, kind, renders=False)
+        # a table without columns, with the option off and on
         for nm in ['t', '"my t"', 'auth.t']:
             for body in ['', '\n', '\n  Note: \'x\'\n', '\n  indexes {\n    id\n  }\n']:
-                text = 'Table a {\n  id int\n}\nTable %s {%s}\n' % (nm, body)
-                cases.append(('table without columns', 'builtins.SyntaxError', text))
-                add_job(text, False, 'table without columns', renders=False)
-        outs = pool_map(parse_impl_job, [(t, False) for _, _, t in cases])
+                for allow in (False, True):
+                    text = 'Table a {\n  id int\n}\nTable %s {%s}\n' % (nm, body)
+                    cases.append(('table without columns', 'builtins.SyntaxError', text, allow))
+                    add_job(text, allow, 'table without columns', renders=False)
+            text = 'Table a {\n  id int\n}\nTable %s {\n  k: \'v\'\n}\n' % nm
+            cases.append(('table without columns', 'builtins.SyntaxError', text, True))
+            add_job(text, True, 'table without columns', renders=False)
+        outs = pool_map(parse_impl_job, [(t, a) for _, _, t, a in cases])
         byk = {}
-        for (kind, exc, text), o in zip(cases, outs):
+        for (kind, exc, text, allow), o in zip(cases, outs):
             byk[kind] = byk.get(kind, 0) + 1
             if o != exc:
                 fails.append({'cause': 'oracle', 'clause': '%s: expected %s, got %s' % (kind, exc, o),
-                              'input': {'kind': 'document', 'text_hex': hexs(text), 'text': text}})
+                              'input': {'kind': 'document', 'text_hex': hexs(text), 'text': text, 'allow_properties': allow}})
         stats['violations_injected'] = byk
     elif pid == 'C07':
         cases = []
@@ -449,6 +464,14 @@ def run(v, tier, st, pr, pid):
                 fails.append({'cause': 'oracle', 'clause': 'malformed text (%s) is not rejected with a syntax error: %s' % (kind, o),
                               'input': {'kind': 'document', 'text_hex': hexs(text), 'text': text}})
         stats['faults_injected'] = byk
+        # nothing of a rejected document may turn up anywhere: parse a probe document right after each rejected one
+        leak = pool_map(c07_leak_job, [t for _, t in cases[:400]])
+        stats['rejected_then_probe'] = len(leak)
+        for (kind, text), o in zip(cases[:400], leak):
+            if o is not None:
+                fails.append({'cause': 'oracle', 'clause': 'elements of a rejected document turn up in the next database: ' + o,
+                              'input': {'kind': 'history', 'ops': ['PyDBML(<malformed text>) raises', "PyDBML('Table probe { id int }')"], 'text': text, 'text_hex': hexs(text)}})
+                break
     elif pid == 'C08':
         cases = []
         base = [t for _, t in repo_documents()]
@@ -558,6 +581,21 @@ def run(v, tier, st, pr, pid):
                           'distinct = distinct complete observation traces')
     v.coverage['samples'] = [{'document': jobs[i][1][0].args[5][:300]} for i in (0, len(jobs) // 2, len(jobs) - 1)]
     v.coverage['explanation'] = 'parser model tied to the code by stream parse; oracle independent of model and renderers'
+
+
+def c07_leak_job(text):
+    from pydbml import PyDBML
+    try:
+        PyDBML(text)
+        return None          # accepted: reported by the other clause
+    except Exception:   # noqa
+        pass
+    try:
+        db = PyDBML('Table probe {\n  id int\n}\n')
+    except Exception as e:   # noqa
+        return 'the probe document is rejected: %s' % type(e).__name__
+    got = ([t.name for t in db.tables], len(db.enums), len(db.refs), len(db.table_groups), len(db.sticky_notes), db.project is not None)
+    return None if got == (['probe'], 0, 0, 0, 0, False) else repr(got)
 
 
 def parse_impl_job(job):
@@ -688,6 +726,22 @@ def c15_job(job):
         if k3 == 'ok':
             if any(t.properties or any(c.properties for c in t.columns) for t in db3.tables):
                 fails.append(('properties rendered with the option off', '', text))
+        # rendered back so that they round-trip (outside the listed C02 findings D8-property-key, D10, D30, D33: bare keys,
+        # single-line values without backslash or three quotes)
+        holders = list(db.tables) + [c for t in db.tables for c in t.columns]
+        dom = all('\n' not in v and '\\' not in v and "'''" not in v and docgen.BARE.match(k_)      # D8: keys are rendered bare
+                  for h_ in holders for k_, v in h_.properties.items())
+        if has_props and dom:
+            k4, db4 = parse_impl(on, True)
+            if k4 != 'ok' and k3 == 'ok':
+                fails.append(('rendered properties do not parse back (the rendering without them does)', str(db4), text))
+            elif k4 == 'ok':
+                holders4 = list(db4.tables) + [c for t in db4.tables for c in t.columns]
+                if len(holders4) == len(holders):
+                    for a_, b_ in zip(holders, holders4):
+                        if list(a_.properties.items()) != list(b_.properties.items()):
+                            fails.append(('properties do not round-trip through the rendering', '%r -> %r' % (a_.properties, b_.properties), text))
+                            break
     except Exception as e:   # noqa
         pass     # rendering problems belong to C02 / C08
     # enabling the option changes nothing for a document without properties
